@@ -493,11 +493,15 @@ func normalizeValue(
 	case reflect.Struct:
 		if v, ok := tryTConfig(v); ok {
 			c := v.Addr().Interface().(*Config)
-			ret := cfgSub{c}
-			if ret.Context().parent != ctx.parent {
-				ret.SetContext(ctx)
+
+			// Do not attach c itself to the normalized tree, as this would
+			// change path and parent of the configuration passed by the
+			// user. The settings are shared only until merging copies them.
+			sub := &Config{ctx: ctx, metadata: c.metadata, fields: c.fields}
+			if sub.fields == nil {
+				sub.fields = &fields{}
 			}
-			return ret, nil
+			return cfgSub{sub}, nil
 		}
 
 		return normalizeStructValue(opts, ctx, v)
